@@ -30,6 +30,12 @@ Families
                the replaced stocks are not touched.
   forward_start EuropeanForwardStartOption on integer and non-integer M/dt x start times on and between grid
                times: payoff == max(S[-1]/S[floor(start/dt)] - K, 0) on the simulated buffer.
+  hedge_grids  compute_hedge with hedge lists whose instruments (stock, proxy stock, listed option on a proxy stock)
+               are on different grids must raise ValueError; on equal grids the hedge has that grid's T columns.
+  tensor_dt    dt given as a 0-dim tensor of the series dtype, >= 3 simulate calls on ONE instrument: the ORIGINAL
+               dt's point count at every call, stock.dt bitwise unchanged.
+  hedger_reuse histories over {compute_hedge(A), compute_hedge(B), get_input(A, .), get_input(B, .)} on one Hedger:
+               get_input(X, i) equals a freshly bound FeatureList on X (time column = oracle), hedge has X's grid.
 """
 from __future__ import annotations
 
@@ -50,7 +56,7 @@ def family(fn):
     return fn
 
 
-DT = {"float32": torch.float32, "float64": torch.float64}
+DT = {"float32": torch.float32, "float64": torch.float64, "default": None}   # default: the library default (float32)
 PRIMARIES = ["brownian", "merton", "kou", "rough_bergomi", "vasicek", "local_vol", "cir", "heston"]
 SLOW = {"vasicek", "local_vol", "cir", "heston"}   # python loop over the steps: cost ~ T per call
 DERIVS = list(market.ALL_DERIVATIVE_KINDS)
@@ -941,6 +947,229 @@ def forward_start_cases(pairs, jmax):
 
 
 # ----------------------------------------------------------------------------
+# hedging instruments on different grids
+# ----------------------------------------------------------------------------
+
+@family
+def hedge_grids(ctx, block):
+    """compute_hedge(derivative, hedge=[...]) with hedging instruments whose price series live on different grids must
+    raise ValueError (documented: 'The spot prices of the hedges must have the same size'); on equal grids the hedge
+    has the T columns of that grid."""
+    import pfhedge.instruments as I
+    from pfhedge.nn import Hedger, Naked
+    dtype = DT[block["dtype"]]
+    torch.manual_seed(0)
+    for case in block["cases"]:
+        dtA, kA, nA = case["A"]
+        dtP, kP, nP = case["P"]
+        MA, MP = kA * dtA, kP * dtP
+        TA, TP = R.expected_points(MA, dtA)[0], R.expected_points(MP, dtP)[0]
+        same = (TA == TP and nA == nP)
+        mini = dict(block, cases=[case])
+        A = market.primary("brownian", dtype=dtype, dt=dtA)
+        d = market.derivative(block["route"], A, **_deriv_kwargs(block["route"], MA, dtA))
+        d.simulate(n_paths=nA)
+        P = market.primary(case.get("kindP", "brownian"), dtype=dtype, dt=dtP)
+        P.simulate(n_paths=nP, time_horizon=MP)
+        listed = I.EuropeanOption(P, maturity=MP, strike=1.0)
+        listed.list(lambda o: torch.relu(o.ul().spot - 1.0) + 0.125 * o.ul().spot)
+        lists = {"stock+proxy_stock": [A, P], "proxy_stock+stock": [P, A], "stock+listed_on_proxy": [A, listed],
+                 "listed_on_proxy+stock": [listed, A]}
+        for lname, hl in lists.items():
+            for mname, inputs in (("state_independent", ["zeros"]), ("state_dependent", ["zeros", "prev_hedge"])):
+                hedger = Hedger(Naked(2), inputs)
+                ctx.tick(1, nontrivial=0 if same else 1)
+                try:
+                    with torch.no_grad():
+                        h = hedger.compute_hedge(d, hedge=hl)
+                    outcome = ("returned", tuple(h.shape))
+                except ValueError as e:
+                    outcome = ("ValueError", str(e)[:80])
+                except Exception as e:
+                    outcome = (type(e).__name__, str(e)[:120])
+                ctx.outcome((lname, mname, same, outcome[0]))
+                grids = f"derivative/stock grid ({nA}, {TA}) [dt={dtA!r}], second instrument's price series ({nP}, {TP}) [dt={dtP!r}]"
+                if same:
+                    if outcome != ("returned", (nA, 2, TA)):
+                        ctx.violation("Hedger.compute_hedge", f"equal_grids_{lname}_{outcome[0]}",
+                                      f"hedge list {lname} ({mname} model), {grids}: {outcome}; expected a hedge of shape "
+                                      f"({nA}, 2, {TA})", observed=list(outcome), expected=[nA, 2, TA], block=mini)
+                elif outcome[0] != "ValueError":
+                    ctx.violation("Hedger.compute_hedge", f"different_grids_{lname}_{outcome[0]}",
+                                  f"hedge list {lname} ({mname} model), {grids}: compute_hedge {outcome} instead of raising "
+                                  f"ValueError('The spot prices of the hedges must have the same size')",
+                                  observed=list(outcome), expected="ValueError", block=mini)
+
+
+# ----------------------------------------------------------------------------
+# tensor-valued dt, repeated simulate calls on one instrument
+# ----------------------------------------------------------------------------
+
+@family
+def tensor_dt(ctx, block):
+    """The instrument's dt is a 0-dim tensor of the series dtype; simulate() is called repeatedly on ONE instrument:
+    at every call T is the point count for the ORIGINAL dt value, and stock.dt is bitwise unchanged."""
+    kind = block["primary"]
+    dtype = DT[block["dtype"]]
+    eps = torch.finfo(dtype).eps
+    torch.manual_seed(0)
+    for dt_py in block["dts"]:
+        dt_t = torch.tensor(dt_py, dtype=dtype)
+        dtval = dt_t.item()                        # the value the instrument really holds
+        orig = dt_t.clone()
+        for hist in block["histories"]:
+            dt_t = orig.clone()
+            try:
+                p = market.primary(kind, dtype=dtype, dt=dt_t)
+                d = market.derivative("european", p, maturity=hist[0] * dtval) if block["route"] == "european" else None
+            except Exception:
+                ctx.add("tensor_dt_not_accepted", 1)
+                continue
+            ctx.add("traces_validated_against_impl", 1)
+            for r, mult in enumerate(hist):
+                M = mult * dtval
+                T = R.expected_points(M, dtval)[0]
+                mini = dict(block, dts=[dt_py], histories=[hist[:r + 1]])
+                ctx.add("transitions", 1)
+                ctx.tick(1, nontrivial=1 if r > 0 else 0)
+                try:
+                    if d is None:
+                        p.simulate(n_paths=2, time_horizon=M)
+                    else:
+                        d.maturity = M
+                        d.simulate(n_paths=2)
+                except Exception as e:
+                    if r == 0:
+                        ctx.add("tensor_dt_not_accepted", 1)
+                        break
+                    ctx.violation(type(p).__name__ + ".simulate", f"tensor_dt_call_{'first' if r == 0 else 'repeated'}_raises:{type(e).__name__}",
+                                  f"{type(p).__name__}(dt=tensor({dt_py!r}, {block['dtype']})) simulate call {r + 1} (horizon {mult}*dt): "
+                                  f"{type(e).__name__}: {str(e)[:160]}", observed=repr(e)[:200], expected=T, block=mini)
+                    break
+                shapes = {n: tuple(b.shape) for n, b in p.named_buffers()}
+                when = "first_call" if r == 0 else "repeated_call"
+                cur = p.dt
+                same_dt = isinstance(cur, torch.Tensor) and cur.dtype == orig.dtype and torch.equal(cur, orig)
+                ctx.outcome((kind, block["dtype"], r, list(shapes.values())[0][1] - T, same_dt))
+                if not same_dt:
+                    ctx.violation(type(p).__name__ + ".simulate", f"tensor_dt_{when}_dt_attribute_changed",
+                                  f"{type(p).__name__}(dt=tensor({dtval!r}, {block['dtype']})): after simulate call {r + 1} the "
+                                  f"instrument's dt is {cur!r}", observed=float(cur) if isinstance(cur, torch.Tensor) else repr(cur),
+                                  expected=dtval, block=mini)
+                if any(sh != (2, T) for sh in shapes.values()):
+                    ctx.violation(type(p).__name__ + ".simulate", f"tensor_dt_{when}_points",
+                                  f"{type(p).__name__}(dt=tensor({dtval!r}, {block['dtype']})) simulate call {r + 1} with horizon "
+                                  f"{mult}*dt: buffers {shapes}, expected (2, {T}) for the original dt",
+                                  observed={k_: list(v) for k_, v in shapes.items()}, expected=[2, T], block=mini)
+                    break
+                if d is not None:
+                    t0 = float(d.time_to_maturity(0)[0, 0])
+                    e = (T - 1) * Fraction(dtval)
+                    if abs(Fraction(t0) - e) > 3 * eps * e or float(d.time_to_maturity(-1)[0, 0]) != 0.0:
+                        ctx.violation("EuropeanOption.time_to_maturity", f"tensor_dt_{when}_value",
+                                      f"dt=tensor({dtval!r}), call {r + 1}: time_to_maturity(0) = {t0!r}, expected {float(e)!r}",
+                                      observed=t0, expected=float(e), block=mini)
+                        break
+            ctx.add("states", len(hist))
+
+
+# ----------------------------------------------------------------------------
+# one hedger, several derivatives
+# ----------------------------------------------------------------------------
+
+def _reuse_world(block):
+    import pfhedge.instruments as I
+    dtype = DT[block["dtype"]]
+    cfg = block["config"]
+    dtA, kA = block["A"]
+    A_ul = market.primary("brownian", dtype=dtype, dt=dtA)
+    A = I.EuropeanOption(A_ul, maturity=kA * dtA, strike=1.0)
+    if cfg == "other_maturity":
+        B = I.EuropeanOption(market.primary("brownian", dtype=dtype, dt=dtA), maturity=(kA + 3) * dtA, strike=1.0)
+    elif cfg == "other_strike_same_underlier":
+        B = I.EuropeanOption(A_ul, maturity=kA * dtA, strike=1.25)
+    elif cfg == "other_underlier_dt":
+        B = I.EuropeanOption(market.primary("heston", dtype=dtype, dt=dtA / 2), maturity=kA * dtA, strike=1.0)
+    elif cfg == "other_type_and_paths":
+        B = I.LookbackOption(market.primary("brownian", dtype=dtype, dt=dtA, sigma=0.4), maturity=(kA - 1) * dtA, strike=0.875)
+    else:
+        raise KeyError(cfg)
+    A.simulate(n_paths=2)
+    if cfg != "other_strike_same_underlier":
+        B.simulate(n_paths=3 if cfg == "other_type_and_paths" else 2)
+    return A, B
+
+
+@family
+def hedger_reuse(ctx, block):
+    """One Hedger object used with several derivatives: get_input(X, i) / compute_hedge(X) always follow X's grid."""
+    from pfhedge.features import FeatureList
+    from pfhedge.nn import Hedger, Naked
+    dtype = DT[block["dtype"]]
+    eps = torch.finfo(dtype).eps
+    inputs = block["inputs"]
+    tcol = [j for j, n in enumerate(inputs) if n in TIME_FEATURES]
+    torch.manual_seed(0)
+    for hist in block["histories"]:
+        A, B = _reuse_world(block)
+        ders = {"A": A, "B": B}
+        hedger = Hedger(Naked(1), inputs)
+        ctx.add("traces_validated_against_impl", 1)
+        used = set()
+        for r, op in enumerate(hist):
+            kind_, who = op.split("_")
+            X = ders[who]
+            N, T = X.ul().spot.shape
+            dt = X.ul().dt
+            mini = dict(block, histories=[hist[:r + 1]])
+            after = "after_other_derivative" if (used - {who}) else "fresh_hedger_or_same_derivative"
+            ctx.add("transitions", 1)
+            try:
+                if kind_ == "hedge":
+                    with torch.no_grad():
+                        h = hedger.compute_hedge(X)
+                    ctx.tick(1, nontrivial=1 if used - {who} else 0)
+                    if tuple(h.shape) != (N, 1, T):
+                        ctx.violation("Hedger.compute_hedge", f"{after}_shape", f"history {hist[:r + 1]} ({block['config']}): "
+                                      f"compute_hedge({who}) shape {tuple(h.shape)}, {who}'s grid is ({N}, {T})",
+                                      observed=list(h.shape), expected=[N, 1, T], block=mini)
+                        break
+                else:
+                    fresh = FeatureList(inputs).of(X)
+                    bad = None
+                    for i in [None] + list(range(T)):
+                        g = hedger.get_input(X, i)
+                        e = fresh.get(i)
+                        ctx.tick(1, nontrivial=1 if used - {who} else 0)
+                        if tuple(g.shape) != tuple(e.shape) or not _same(g, e):
+                            bad = (i, list(g.shape), list(e.shape), g.flatten()[:6].tolist(), e.flatten()[:6].tolist())
+                            break
+                        for j in tcol:      # the time column is the oracle's, not merely "what a fresh feature says"
+                            col = g[0, :, j].tolist()
+                            want = [R.time_to_maturity(T, k_, dt) for k_ in (range(T) if i is None else [i])]
+                            if any(abs(Fraction(c) - w) > 3 * eps * (T - 1) * dt for c, w in zip(col, want)):
+                                bad = (i, list(g.shape), list(e.shape), col[:6], [float(w) for w in want[:6]])
+                                break
+                        if bad:
+                            break
+                    if bad:
+                        i, gs, es, gv, ev = bad
+                        ctx.violation("Hedger.get_input", f"{after}_not_the_derivatives_grid",
+                                      f"history {hist[:r + 1]} ({block['config']}, inputs {inputs}): get_input({who}, {i}) has shape {gs} "
+                                      f"values {gv}; the features of {who} (grid ({N}, {T}), dt={dt!r}) are shape {es} values {ev}",
+                                      observed=[gs, gv], expected=[es, ev], block=mini)
+                        break
+            except Exception as e:
+                ctx.violation("Hedger.get_input" if kind_ == "input" else "Hedger.compute_hedge", f"{after}_raises:{type(e).__name__}",
+                              f"history {hist[:r + 1]} ({block['config']}, inputs {inputs}): {type(e).__name__}: {str(e)[:160]}",
+                              observed=repr(e)[:200], expected="values on the derivative's grid", block=mini)
+                break
+            used.add(who)
+            ctx.outcome((block["config"], op, T, N))
+        ctx.add("states", len(hist))
+
+
+# ----------------------------------------------------------------------------
 
 def _chunks(cases, n):
     return [cases[i:i + n] for i in range(0, len(cases), n)]
@@ -957,7 +1186,7 @@ def run(ctx):
              "exact quotient is an integer up to 4 ulp but whose float quotient M/dt is not that integer.  "
              "ttm: time_to_maturity() on every grid and time_to_maturity(i) for every i in [-T, T) (quick: T <= 25 for "
              "EuropeanOption, T <= 13 and k <= Ksmall for the other option classes; thorough: all), float64 and float32.  "
-             "grid_use: payoff / every applicable feature get(None), get(i) / hedger shapes on the k <= Ksmall grids.  "
+             "grid_use: payoff / every applicable feature get(None), get(i) / hedger shapes on the k <= 5 (quick) / Ksmall..60 grids.  "
              "cross_dt: every ordered pair of distinct dt symbols x M in {k*dt1, k*dt2, (k-1/2)*dt1 : k <= Kc} x second "
              "underlier class in {Brownian, Heston, Merton}; non-trivial = the two underliers need different numbers of "
              "points.  resimulate: every sequence of length 3 (thorough 4) over the (M/dt, n_paths) symbols (all |S|^depth "
@@ -970,7 +1199,13 @@ def run(ctx):
              "derivative classes x 2 stock triples; non-trivial = simulations after a swap.  grid_use also: get(i) for every i in "
              "[-T, T) (running-maximum features: without i = -1) has shape (N,1,1) and equals column i of get(None); "
              "Hedger.get_input(d, -1|0|T-1).  forward_start: (k*dt, (k-1/2)*dt maturities, k <= Ksmall) x starts j*dt, (j+0.3)*dt, "
-             "(j+0.7)*dt; non-trivial = non-integer M/dt with a start between grid times")
+             "(j+0.7)*dt; non-trivial = non-integer M/dt with a start between grid times.  hedge_grids: dt x k x proxy grids "
+             "(same dt other horizon, other n_paths, other dt same horizon / same number of steps) x 4 hedge lists x "
+             "{state-independent, state-dependent} model; non-trivial = different grids.  grid_steps also: all 8 primaries in the "
+             "default dtype and float32 with python-float dts (incl. 0.3, 0.1/3) on k <= 4 (24).  tensor_dt: 8 primaries x "
+             "{float32, float64} x dt symbols as 0-dim tensors x simulate histories of length 3-4; non-trivial = repeated "
+             "calls.  hedger_reuse: every operation sequence of length <= 3 (4) ending with a get_input or hedge_B x 4 "
+             "(A, B) configurations x 2 input lists; non-trivial = operations after the hedger saw the other derivative")
     ctx.assume("expected number of points computed with exact Fractions on the float arguments; 'integer' = within "
                "4*2^-52*k of k; no enumerated pair lies between that and 1e-6 of an integer (asserted)")
     ctx.assume("the number of steps does not depend on the random draws (seed fixed, values unused)")
@@ -1041,6 +1276,8 @@ def run(ctx):
             if ctx.quick and kind == "heston" and route not in ("european", "variance_swap"):
                 continue
             cases = small_pairs if (ctx.quick or kind in SLOW) else [c for c in all_pairs if c[3] <= 60]
+            if ctx.quick:
+                cases = [c for c in small_pairs if c[3] <= 5]
             for ch in _chunks(cases, 200):
                 blocks.append(("grid_use", {"primary": kind, "route": route, "n_paths": 2, "light": ctx.quick, "cases": ch}))
 
@@ -1129,9 +1366,56 @@ def run(ctx):
         for ch in _chunks(fs_cases, 400):
             blocks.append(("forward_start", {"primary": prim, "dtype": dtype, "strike": strike, "n_paths": 3, "cases": ch}))
 
+    # hedging instruments on different grids: ValueError, never a silently shaped hedge
+    hg = []
+    hdt = [d_[1] for d_ in dts][: ctx.pick(4, 9)]
+    for dtA in hdt:
+        for kA in ((3, 5) if ctx.quick else (2, 3, 5, 8)):
+            for (dtP, kP, nP) in [(dtA, kA, 2), (dtA, kA + 2, 2), (dtA, kA - 1, 2), (dtA, kA, 3)] + \
+                    [(o, kA, 2) for o in hdt if o != dtA] + [(o, max(1, round(kA * dtA / o)), 2) for o in hdt if o != dtA]:
+                hg.append({"A": [dtA, kA, 2], "P": [dtP, kP, nP]})
+    ctx.add("hedge_grid_cases", len(hg))
+    for route in (["european", "variance_swap"] if ctx.quick else DERIVS):
+        for ch in _chunks(hg, 100):
+            blocks.append(("hedge_grids", {"route": route, "dtype": "float64", "cases": ch}))
+
+    # every primary in the default dtype (float32) and explicit float32 with python-float dts whose float32 rounding goes
+    # down (0.01, 0.1/3) and up (0.004, 0.1, 0.3): the step count is that of the PYTHON float dt
+    f32_dts = list(dts) + [("0.3", 0.3, None, "0.3"), ("0.1/3", 0.1 / 3, None, None)]
+    f32_pairs = [c for dsym in f32_dts for c in pairs_for(dsym, ctx.pick(4, 24))]
+    ctx.add("float32_instrument_pairs", len(f32_pairs))
+    for kind in PRIMARIES:
+        for dtype in ("default", "float32"):
+            if ctx.quick and dtype == "float32" and kind in SLOW:
+                continue
+            for ch in _chunks(f32_pairs, 400):
+                blocks.append(("grid_steps", {"primary": kind, "route": "own", "n_paths": 1, "dtype": dtype, "cases": ch}))
+        for ch in _chunks([c for c in f32_pairs if c[3] <= 3], 400):
+            blocks.append(("grid_steps", {"primary": kind, "route": "european", "n_paths": 1, "dtype": "default", "cases": ch}))
+    # tensor-valued dt, repeated simulate calls on one instrument
+    tdts = [0.01, 0.004, 0.25, 0.1, 1 / 365] if ctx.quick else [d_[1] for d_ in dts] + [0.3]
+    thists = [list(h) for h in itertools.product([3, 5, 2.5], repeat=3)] if ctx.thorough else \
+        [[3, 3, 3], [3, 5, 3], [5, 2.5, 3], [2.5, 3, 5, 3]]
+    for kind in PRIMARIES:
+        for dtype in ("float32", "float64"):
+            for route in ("own", "european"):
+                if ctx.quick and route == "european" and kind != "brownian":
+                    continue
+                blocks.append(("tensor_dt", {"primary": kind, "dtype": dtype, "route": route, "dts": tdts, "histories": thists}))
+    # one hedger, several derivatives
+    rops = ["hedge_A", "input_B", "input_A", "hedge_B"]
+    rh = [list(h) for L in range(1, ctx.pick(3, 4) + 1) for h in itertools.product(rops, repeat=L) if h[-1].startswith("input") or L == 1 or h[-1] == "hedge_B"]
+    ctx.alphabet("hedger_reuse operations", rops)
+    for cfg in ("other_maturity", "other_strike_same_underlier", "other_underlier_dt", "other_type_and_paths"):
+        for inputs in (["log_moneyness", "time_to_maturity", "volatility"], ["moneyness", "expiry_time"]):
+            for (dtA, kA) in ([(1 / 250, 5)] if ctx.quick else [(1 / 250, 5), (0.1, 4), (1 / 365, 7)]):
+                for ch in _chunks(rh, 64):
+                    blocks.append(("hedger_reuse", {"config": cfg, "inputs": inputs, "A": [dtA, kA], "dtype": "float64",
+                                                    "histories": ch}))
+
     if ctx.thorough:
         for name in ("grid_steps", "ttm", "grid_use", "cross_dt", "resimulate", "long_grid", "local_vol", "swap",
-                     "forward_start"):
+                     "forward_start", "hedge_grids", "tensor_dt", "hedger_reuse"):
             ctx.run_parallel(name, [b for n, b in blocks if n == name])
     else:
         for name, b in blocks:
